@@ -67,6 +67,7 @@ type Contract struct {
 	Covers   bool
 	Replay   string
 	Ghosts   []SpecParam
+	Instance string // generic function: verify the instance whose name contains this text
 }
 
 type SplitSpec struct {
@@ -117,7 +118,7 @@ var (
 var clauseKeywords = map[string]bool{
 	"prop": true, "mode": true, "requires": true, "ensures": true, "panics-iff": true, "may-panic": true,
 	"invariant": true, "decreases": true, "unroll": true, "modifies": true, "let": true, "trusted": true,
-	"abstract": true, "inline": true, "split": true, "assert": true, "replay": true, "no-panic": true, "ghost": true,
+	"abstract": true, "inline": true, "split": true, "assert": true, "replay": true, "no-panic": true, "ghost": true, "instance": true,
 }
 
 // qualify turns a contract-file function key into the ssa full name.
@@ -328,6 +329,8 @@ func (cs *ContractStore) addClause(c *Contract, kw, rest, where string) error {
 		c.Abstract = true
 	case "inline":
 		c.Inline = true
+	case "instance":
+		c.Instance = rest
 	case "ghost":
 		parts := strings.Fields(rest)
 		if len(parts) != 2 {
